@@ -7,6 +7,7 @@ import Duckling.Lemmas.LexFlat
 import Duckling.Lemmas.LexFlatB
 import Duckling.Lemmas.LexExpr
 import Duckling.Lemmas.EvalGroup
+import Duckling.Lemmas.NoFuel
 /-
   C04 — expressions evaluate with the documented precedence and typing.
 
@@ -61,8 +62,12 @@ import Duckling.Lemmas.EvalGroup
   * `C04_redundant_parens`      `( t )` evaluates to what `t` evaluates to (value or error) — redundant parentheses change nothing;
                                  `C04_not_value`: `!( t )` is the negated truth value of `t`.
                                  Guard of these three: the model's own evaluation of `t` does not end in its "recursion fuel ran out" answer
-                                 (`Outcome.isFuel`; the fuel is 3·length+10 and no input is known to exhaust it, but sufficiency for arbitrary
-                                 text is not proved).
+                                 (`Outcome.isFuel`; the fuel is 3·length+10; sufficiency for ARBITRARY text is not proved).
+  * `C04_nested_value`          **the guard discharged for structured expressions of ANY nesting depth** (`GoodAtomD n`: leaves are numbers,
+                                 literals, names, TRUE/FALSE, strings, or groups whose inner text is again such an expression, `n` levels deep):
+                                 `tokenize` of such an expression is the fuel-free evaluation of its reference precedence parse, unconditionally —
+                                 `C04_nested_total`: the model's fuel never runs out on them (no value operation, literal conversion or
+                                 operator ever returns the fuel answer: `Lemmas/NoFuel`; tree building keeps the leaves: `reduceAll_allLeaves`).
   * **signed and decimal literals** (`Lemmas/LexNum`): a leaf may also be a literal `[-]digits[.digits]` (`Atom.lit`): the number class
                                  takes a leading `-` (token still open), digits close it, the first `.` makes it a decimal, the first character
                                  that is neither digit nor dot ends it unconsumed — `C04_lex_expr` / `C04_expr_value` / `C04_group_value` cover
@@ -410,5 +415,67 @@ example : GoodAtom ["Total".toList, "To".toList] (.tfname "Total".toList) := by
   · intro h
     exact ⟨(show NameStart0 'T' from ⟨by decide, by decide, by decide, by decide, by decide⟩), (show ('T' == '/') = false from by decide),
       (show ('T' == '=') = false from by decide)⟩
+
+/-! ### structured expressions of any nesting depth: the fuel guard discharged -/
+
+/-- a leaf of nesting depth at most `n`: any good atom whose group (if it is one) contains a flat expression of leaves of depth `< n` -/
+def GoodAtomD (names : List Str) : Nat → Atom → Prop
+  | 0, a => GoodAtom names a ∧ ∀ neg inner, a ≠ .grp neg inner
+  | n + 1, a => GoodAtom names a ∧ ∀ neg inner, a = .grp neg inner →
+      ∃ lead a' rest trail, inner = exprText lead a' rest trail ∧ AllSp lead ∧ AllSp trail ∧ GoodAtomD names n a' ∧
+        GoodExprRest names rest ∧ ∀ t ∈ rest, GoodAtomD names n t.2.2.2.2
+
+theorem goodAtomD_good (names : List Str) (n : Nat) (a : Atom) (h : GoodAtomD names n a) : GoodAtom names a := by
+  cases n <;> exact h.1
+
+theorem atom_tok_cls_grp (a : Atom) (h : a.tok.cls = .grp) : ∃ neg inner, a = .grp neg inner := by
+  cases a <;> simp [Atom.tok] at h
+  exact ⟨_, _, rfl⟩
+
+/-- if every leaf of a flat expression has an answer, so has the expression's tree -/
+theorem exprTree_notFuel (vars : VarEnv) (names : List Str) (a : Atom) (rest : ExprRest) (hrest : GoodExprRest names rest)
+    (ha : (leafValS vars a.tok).isFuel = false) (hr : ∀ t ∈ rest, (leafValS vars t.2.2.2.2.tok).isFuel = false) :
+    (evalTreeS vars (exprTree a rest)).isFuel = false := by
+  apply evalTreeS_notFuel
+  have hb := C04_build (Tree.leaf a.tok) (exprPairs rest) (exprPairs_opsIn names rest hrest)
+  have : exprTree a rest = (reduceAll ranks (Tree.leaf a.tok) (exprPairs rest)).1 := by rw [hb]; rfl
+  rw [this]
+  apply reduceAll_allLeaves
+  · exact ha
+  · intro p hp
+    simp only [exprPairs, List.mem_map] at hp
+    obtain ⟨t, ht, rfl⟩ := hp
+    exact hr t ht
+
+/-- **the model's fuel never runs out on structured expressions**, whatever their nesting depth -/
+theorem C04_nested_total (vars : VarEnv) (hn : NamesOk (vars.map (·.1))) :
+    ∀ (n : Nat) (a : Atom), GoodAtomD (vars.map (·.1)) n a → (leafValS vars a.tok).isFuel = false := by
+  intro n
+  induction n with
+  | zero =>
+    intro a ⟨_, hng⟩
+    apply leafValS_notFuel_nongrp
+    intro hc
+    obtain ⟨neg, inner, rfl⟩ := atom_tok_cls_grp a hc
+    exact hng neg inner rfl
+  | succ n ih =>
+    intro a ⟨hga, hgrp⟩
+    by_cases hc : a.tok.cls = .grp
+    · obtain ⟨neg, inner, rfl⟩ := atom_tok_cls_grp a hc
+      obtain ⟨lead, a', rest, trail, rfl, hlead, htrail, ha', hrest, hall⟩ := hgrp neg inner rfl
+      have hT := exprTree_notFuel vars _ a' rest hrest (ih a' ha') (fun t ht => ih _ (hall t ht))
+      have hv := C04_group_value vars hn lead a' rest trail hlead htrail (goodAtomD_good _ n a' ha') hrest hT
+      rw [C04_group_leaf, hv]
+      refine isFuel_bind _ _ (isFuel_bind _ _ hT (fun _ => rfl)) (fun _ => rfl)
+    · exact leafValS_notFuel_nongrp vars a.tok hc
+
+/-- **nested expressions, unconditionally**: `Tokenizer.tokenize` of a flat expression whose leaves are structured to any depth `n` is
+    the fuel-free evaluation of the reference precedence parse of its tokens -/
+theorem C04_nested_value (vars : VarEnv) (hn : NamesOk (vars.map (·.1))) (n : Nat) (lead : Str) (a : Atom) (rest : ExprRest) (trail : Str)
+    (hlead : AllSp lead) (htrail : AllSp trail) (ha : GoodAtomD (vars.map (·.1)) n a) (hrest : GoodExprRest (vars.map (·.1)) rest)
+    (hall : ∀ t ∈ rest, GoodAtomD (vars.map (·.1)) n t.2.2.2.2) :
+    tokenize vars (exprText lead a rest trail) = (evalTreeS vars (exprTree a rest) >>= fun v => .ok v.normalise) :=
+  C04_group_value vars hn lead a rest trail hlead htrail (goodAtomD_good _ n a ha) hrest
+    (exprTree_notFuel vars _ a rest hrest (C04_nested_total vars hn n a ha) (fun t ht => C04_nested_total vars hn n _ (hall t ht)))
 
 end Duckling.Props.C04
